@@ -115,9 +115,14 @@ func (e *Eval) compile(node ast.Node) error {
 			keys = append(keys, k)
 		}
 
-		// sort them
+		// sort them: by key, and by value when a key is repeated,
+		// so the order never depends on the iteration of the map
 		sort.Slice(keys, func(i, j int) bool {
-			return keys[i].String() < keys[j].String()
+			a, b := keys[i].String(), keys[j].String()
+			if a != b {
+				return a < b
+			}
+			return node.Pairs[keys[i]].String() < node.Pairs[keys[j]].String()
 		})
 
 		// for each key + value compile them
